@@ -16,6 +16,7 @@ import GMGDriver.SmCodeDrv
 import GMGDriver.CacheDrv
 import GMGDriver.SetupDrv
 import GMGDriver.ExSmCodeDrv
+import GMGDriver.ConcreteDrv
 
 def main (args : List String) : IO UInt32 := do
   match args with
@@ -39,6 +40,7 @@ def main (args : List String) : IO UInt32 := do
   | ["cache"] => CacheDrv.main
   | ["setup"] => SetupDrv.main
   | ["exsmcode"] => ExSmCodeDrv.main
+  | ["concrete"] => ConcreteDrv.main
   | ["owner", a, b] => OwnerDrv.main a.toNat! b.toNat!
   | ["sched", a, b] => SchedDrv.main a.toNat! b.toNat!
   | _ => do
